@@ -238,8 +238,17 @@ func runC03(r *simkit.Run, c Cfg) {
 		if c.Case >= 0 && k.key%2 == 1 || c.Case < 0 && tp.Chance(1, 2, "longTopic") {
 			// a long topic name: the signed payload (CID and topic) is well
 			// over a hundred bytes
-			topic = "/indexer/ingest/" + strings.Repeat("a-long-network-name/", 6) + "mainnet"
+			rep := 6
+			if c.Case < 0 {
+				// up to several kilobytes: nothing limits the length of a
+				// topic name, and the head that carries it grows with it
+				rep = []int{6, 6, 30, 120, 400}[tp.Choose(5, "longTopic.rep")]
+			}
+			topic = "/indexer/ingest/" + strings.Repeat("a-long-network-name/", rep) + "mainnet"
 			r.Probe("long-topic")
+			if rep >= 120 {
+				r.Probe("head-larger-than-2KiB")
+			}
 		}
 	}
 	if c.Case < 0 && k.topic && tp.Chance(1, 6, "rawTopic") {
